@@ -33,7 +33,7 @@ CFG = {
             "subnormals, 17-digit values) + grammar-generated geometries of the five types (member counts 1..6, ring counts 1..4, occasionally 17..300; 'wide' geometries with 65/129/257/1025 members at exactly one nesting level) "
             "with coordinates from {arbitrary finite 64-bit patterns, subnormals, -0, values within 3 ulp of 1e21/1e20/1e-4/1e-5/1e-7, integers, "
             "17-significant-digit values, 2^e sweep, quarter grid}; 5% each: empty members, non-finite, unsupported types; plus decimal-literal "
-            "cross-validation cases (class numconv). distinct = distinct input line; non-trivial = verdict class not 'skipped'",
+            "cross-validation cases (class numconv). plus batch lines (a history of 2..8 Encode calls whose returned slices are kept and re-verified after the whole batch); distinct = distinct input line; non-trivial = verdict class not 'skipped'",
     "timeout": {"quick": 600, "thorough": 3000},
     "explanation": "Each real wkt.Encode output is (1) parsed by the independent Lean OGC parser with exact round-to-nearest-even number "
                    "conversion and compared bit-for-bit with the input geometry (SPEC), each number token additionally checked to be the "
